@@ -35,7 +35,11 @@ UNITS = {
         {"name": "C09_RACE", "test": "TestC09_RACE", "quick": 60, "thorough": 900, "shards": 6, "bin": True, "race": True, "budget_quick": 900},
     ],
     "C10": [
-        {"name": "C10_PKT", "test": "TestC10_PKT", "quick": 4000, "thorough": 100000, "shards": 16},
+        {"name": "C10_PKT", "test": "TestC10_PKT", "quick": 3000, "thorough": 100000, "shards": 8},
+        {"name": "C10_BIN", "test": "TestC10_BIN", "quick": 300, "thorough": 10000, "shards": 3, "bin": True},
+        {"name": "C10_HTTP", "test": "TestC10_HTTP", "quick": 120, "thorough": 4000, "shards": 3, "bin": True},
+        {"name": "C10_NTLM", "test": "TestC10_NTLM", "quick": 20000, "thorough": 400000, "shards": 1},
+        {"name": "C10_KDC", "test": "TestC10_KDC", "quick": 3000, "thorough": 60000, "shards": 1},
     ],
     "C17": [
         {"name": "C17_INP", "test": "TestC17_INP", "quick": 8000, "thorough": 20000, "shards": 12},
